@@ -41,7 +41,9 @@ class Ctx:
         self.tier = tier
         self.seed = seed
         self.t0 = time.time()
-        self.work = os.path.join(VERIF, ".work", "%s-%s" % (prop, tier))
+        # VERIF_WORK_SUFFIX / VERIF_EVIDENCE_DIR: let several runs of one property (e.g. against
+        # different scratch trees via VERIF_REPO) coexist without sharing scratch or evidence files
+        self.work = os.path.join(VERIF, ".work", "%s-%s%s" % (prop, tier, os.environ.get("VERIF_WORK_SUFFIX", "")))
         shutil.rmtree(self.work, ignore_errors=True)
         os.makedirs(self.work, exist_ok=True)
         self.states = 0
@@ -202,6 +204,13 @@ class Ctx:
             cmd = ["go", "test", "-c", "-o", out]
         else:
             cmd = ["go", "build", "-o", out]
+        if os.path.realpath(REPO) != "/repo":
+            # alternative tree (scratch worktree with a candidate change): same module, other replace root
+            alt = os.path.join(self.work, "go.alt.mod")
+            txt = open(os.path.join(HARNESS, "go.mod")).read().replace("=> /repo", "=> " + REPO)
+            open(alt, "w").write(txt)
+            shutil.copy(os.path.join(HARNESS, "go.sum"), os.path.join(self.work, "go.alt.sum"))
+            cmd.append("-modfile=" + alt)
         if tags:
             cmd += ["-tags", tags]
         if race:
@@ -297,7 +306,7 @@ class Ctx:
     def finish(self):
         wall = time.time() - self.t0
         # replay artefacts
-        rdir = os.path.join(VERIF, "replays", self.prop)
+        rdir = os.path.join(VERIF, "replays", self.prop + os.environ.get("VERIF_WORK_SUFFIX", ""))
         paths = []
         if self.violations:
             os.makedirs(rdir, exist_ok=True)
@@ -330,8 +339,9 @@ class Ctx:
             "coverage": cov, "assumptions": self.assumptions, "wall_s": round(wall, 1),
             "violations": sum(self.viol_counts.values()),
         }
-        os.makedirs(os.path.join(VERIF, "evidence"), exist_ok=True)
-        with open(os.path.join(VERIF, "evidence", self.prop + ".json"), "w") as f:
+        evdir = os.environ.get("VERIF_EVIDENCE_DIR") or os.path.join(VERIF, "evidence")
+        os.makedirs(evdir, exist_ok=True)
+        with open(os.path.join(evdir, self.prop + ".json"), "w") as f:
             json.dump(ev, f, indent=1, default=str)
         if self.violations:
             for p in paths[:5]:
@@ -351,7 +361,8 @@ class Ctx:
 
 # ---------------------------------------------------------------------- known findings
 def load_known(prop):
-    p = os.path.join(VERIF, "known_findings.json")
+    """known_findings/<prop>.json: committed, never written at run time."""
+    p = os.path.join(VERIF, "known_findings", prop + ".json")
     if not os.path.exists(p):
         return []
     with open(p) as f:
